@@ -8,9 +8,7 @@
 package main
 
 import (
-	"encoding/json"
 	"fmt"
-	"os"
 	"time"
 
 	"verif/lib/runner"
@@ -20,7 +18,7 @@ func main() {
 	runner.Main(runner.Config{
 		ID:    "C12",
 		Level: "model_checking",
-		Rule:  "differ/applier: every (old,new) over {0,1} with lengths 0..8 (quick: 0..6) x Partitions 0..16 and over {0,1,2} with lengths 0..5 (quick: 0..4) x Partitions {0,1,2,3,5,16}, SuffixSortConcurrency cycling over {0,1,-1} and fresh/reused DiffContext alternating with the case ordinal, run through the real DiffContext.Do; oracle per run: no panic/crash, Do returns nil, exactly one Eof message and it is last, sum(len add+len copy)=len(new), a reference applier and the real PatchContext.Patch both yield new, and for every message index i a fresh IndividualPatchContext started at the OldOffset saved after i messages yields the same remainder. The region old=\"\" x new!=\"\" of the same space is enumerated by the sub-check empty-old in groups (one group = one journaled case) because every member kills the process on the unrepaired tree. Structured large family: old in {period 1,3,256, pseudo-random} x size {64,4096,128KiB-1,128KiB+1,300KiB,2MiB} x new in {same,prefix,suffix,every k-th byte changed,block moved,unrelated,empty,longer} x Partitions {0,1,2,7,16} (restart oracle at all indices for series of <=24 messages, else at {0,1,2,n/4,n/2,3n/4,n-2,n-1,n}). Read cache: explicit-state BFS to fixpoint over the real lrufile for chunk 1..4 x entries 1..3 x file size 0..9 (quick: 0..6) x underlying reader {bytes.Reader, *os.File}; operations Seek(o,Start) o=-1..size+1, Seek(+-1,Current), Seek(-o,End), Read(n) n in {1,chunk-1,chunk,chunk+1,2chunk+1}, Reset(other file); states are shadow states (file, offset, LRU-ordered resident chunks with slots), every successor is produced by replaying the shortest path on a fresh lrufile plus one operation and comparing data, count, error, position and Stats() with the model. Non-trivial: differ case = some series has both a non-empty Add and a non-empty Copy; cache geometry = the search contains an eviction, a read spanning chunks and a hit.",
+		Rule:  "differ/applier: every (old,new) over {0,1} with lengths 0..8 (quick: 0..6) x Partitions 0..16 and over {0,1,2} with lengths 0..5 (quick: 0..4) x Partitions {0,1,2,3,5,16}, SuffixSortConcurrency cycling over {0,1,-1} and fresh/reused DiffContext alternating with the case ordinal, run through the real DiffContext.Do; oracle per run: no panic/crash, Do returns nil, exactly one Eof message and it is last, sum(len add+len copy)=len(new), a reference applier and the real PatchContext.Patch both yield new, and for every message index i a fresh IndividualPatchContext started at the OldOffset saved after i messages yields the same remainder. The region old=\"\" x new!=\"\" of the same space is enumerated by the sub-check empty-old in groups (one group = one journaled case) because every member kills the process on the unrepaired tree. Structured large family: old in {period 1,3,256, pseudo-random} x size {64,4096,128KiB-1,128KiB+1,300KiB,2MiB} x new in {same,prefix,suffix,every k-th byte changed,block moved,unrelated,empty,longer} x Partitions {0,1,2,7,16} (restart oracle at all indices for series of <=24 messages, else at {0,1,2,n/4,n/2,3n/4,n-2,n-1,n}). Scaled-cache variants (overlay builds with only lruChunkSize/lruNumEntries of NewIndividualPatchContext changed to 1x2, 3x1, 4x3; geometry verified at run time through a recording reader): every (old,new) over {0,1} with lengths 0..6 (quick: 0..5) x Partitions {0,2,3} and the 64/4096-byte members of the large family through the same oracles, so that the real applier reads through a cache that evicts constantly. Read cache: explicit-state BFS to fixpoint over the real lrufile for chunk 1..4 x entries 1..3 x file size 0..9 (quick: 0..6) x underlying reader {bytes.Reader, *os.File}; operations Seek(o,Start) o=-1..size+1, Seek(+-1,Current), Seek(-o,End), Read(n) n in {1,chunk-1,chunk,chunk+1,2chunk+1}, Reset(other file); states are shadow states (file, offset, LRU-ordered resident chunks with slots), every successor is produced by replaying the shortest path on a fresh lrufile plus one operation and comparing data, count, error, position and Stats() with the model. Non-trivial: differ case = some series has both a non-empty Add and a non-empty Copy; cache geometry = the search contains an eviction, a read spanning chunks and a hit.",
 		Assumptions: []string{
 			"byte values outside the small alphabets only occur in the large family (seeded pseudo-random streams and periodic patterns)",
 			"goroutine interleavings of the scanner are not controlled here (free-running); the schedule dimension belongs to the E2 part of C12",
@@ -29,6 +27,7 @@ func main() {
 			"the offset left behind by a rejected (out of range) Seek is not specified by the property: the model adopts the implementation's value",
 			"the search de-duplicates on the shadow state: stale bytes left in the cache storage by earlier loads are not part of the state identity",
 		},
+		Variants:       []string{"c1e2", "c3e1", "c4e3"},
 		QuickBudget:    90 * time.Second,
 		ThoroughBudget: 15 * time.Minute,
 	}, body)
@@ -139,9 +138,7 @@ func body(w *runner.W) {
 	// ---- structured large family ---------------------------------------
 	var large *runner.Sub[DiffCase]
 	large = runner.NewSub(w, "large", func(c DiffCase, r *runner.Rec) {
-		t0 := time.Now()
 		runDiffCase(w, getAp(), c, r)
-		timelog("large", c, t0)
 	}, runner.Journal())
 	if large.Active() {
 		const K = 1024
@@ -172,8 +169,65 @@ func body(w *runner.W) {
 		large.Done()
 	}
 
+	// ---- the real applier over a scaled read cache (overlay builds) --------
+	// In the plain build the cache holds 1024 chunks of 32KiB, so nothing is ever
+	// evicted below 32MiB of old file. These binaries rebuild bsdiff with only the
+	// two geometry constants of NewIndividualPatchContext changed, so that every
+	// series of the small scope is applied through a cache that evicts constantly.
+	for _, v := range []struct {
+		name           string
+		chunk, entries int
+	}{{"c1e2", 1, 2}, {"c3e1", 3, 1}, {"c4e3", 4, 3}} {
+		var sc *runner.Sub[DiffCase]
+		sc = runner.NewSub(w, "scaled-cache-"+v.name, func(c DiffCase, r *runner.Rec) {
+			runDiffCase(w, getAp(), c, r)
+			if c.Large == nil {
+				sc.Bulk(int64(len(c.News)*len(c.Parts)-1), 0, 0)
+			}
+		}, runner.Variant(v.name), runner.Journal())
+		if !sc.Active() {
+			continue
+		}
+		if ch, en := probeCacheGeometry(); ch != v.chunk || en != v.entries {
+			sc.Skip(fmt.Sprintf("the applier's cache behaves like chunk=%d entries=%d in this build, expected %d/%d", ch, en, v.chunk, v.entries))
+			continue
+		}
+		max := 6
+		if w.Quick() {
+			max = 5
+		}
+		all := strs(2, 0, max)
+		n := 0
+		for _, o := range all {
+			for _, nw := range all {
+				if o == "" && nw != "" {
+					continue // sub-check empty-old
+				}
+				var parts []int
+				for _, p := range []int{0, 2, 3} {
+					if len(nw) > 0 && len(nw) < p && p < len(o)-1 {
+						continue // divide-by-zero region, enumerated (and reported) by sub-check small
+					}
+					parts = append(parts, p)
+				}
+				sc.Do(DiffCase{Alpha: 2, Old: o, News: []string{nw}, Parts: parts, Conc: concs[n%3], Warm: n%2 == 1})
+				n++
+			}
+		}
+		for _, size := range []int{64, 4096} {
+			for _, ok := range []string{"p1", "p3", "p256", "rand"} {
+				for _, nk := range []string{"same", "prefix", "suffix", "kth", "moved", "unrelated", "empty", "longer"} {
+					for _, p := range []int{0, 2} {
+						sc.Do(DiffCase{Parts: []int{p}, Large: &LargeGen{OldKind: ok, Size: size, NewKind: nk}})
+					}
+				}
+			}
+		}
+		sc.Done()
+	}
+
 	// ---- read cache: explicit-state search on the real object -------------
-	lru := runner.NewSub(w, "lru-bfs", func(c LruCase, r *runner.Rec) { t0 := time.Now(); runLruCase(w, c, r); timelog("lru", c, t0) })
+	lru := runner.NewSub(w, "lru-bfs", func(c LruCase, r *runner.Rec) { runLruCase(w, c, r) })
 	if lru.Active() {
 		maxSize := 9
 		if w.Quick() {
@@ -203,15 +257,4 @@ func hasSym2(s string) bool {
 		}
 	}
 	return false
-}
-
-func timelog(sub string, c any, t0 time.Time) {
-	if p := os.Getenv("C12_TIMELOG"); p != "" {
-		f, err := os.OpenFile(p, os.O_APPEND|os.O_CREATE|os.O_WRONLY, 0o644)
-		if err == nil {
-			b, _ := json.Marshal(c)
-			fmt.Fprintf(f, "%8.3f %s %s %s\n", time.Since(t0).Seconds(), time.Now().Format("15:04:05"), sub, b)
-			f.Close()
-		}
-	}
 }
